@@ -47,7 +47,7 @@ pub enum LeafSel {
     Best,
     Worst,
     Random,
-    Tournament(Tournament),
+    Tournament(Tournament, usize),
     Lexicase(Lexicase),
 }
 
@@ -68,13 +68,14 @@ impl Selector<Pop> for LeafSel {
             Self::Best => Best.select(pop, rng).map_err(|_| LeafErr(json!({"k": "empty_population"}))),
             Self::Worst => Worst.select(pop, rng).map_err(|_| LeafErr(json!({"k": "empty_population"}))),
             Self::Random => Random.select(pop, rng).map_err(|_| LeafErr(json!({"k": "empty_population"}))),
-            Self::Tournament(t) => t.select(pop, rng).map_err(|e| {
-                let d = format!("{e:?}");
-                let num = |key: &str| -> u64 {
-                    d.split(key).nth(1).map_or(0, |r| r.chars().skip_while(|c| !c.is_ascii_digit())
-                        .take_while(char::is_ascii_digit).collect::<String>().parse().unwrap_or(0))
-                };
-                LeafErr(json!({"k": "tournament_size", "size": num("tournament_size"), "pop": num("population_size")}))
+            Self::Tournament(t, k) => t.select(pop, rng).map_err(|e| {
+                use ec_core::operator::selector::tournament::TournamentSizeError;
+                let ok = std::num::NonZeroUsize::new(*k).is_some_and(|nz| e == TournamentSizeError::new(nz, pop.len()));
+                if ok {
+                    LeafErr(json!({"k": "tournament_size", "size": k, "pop": pop.len()}))
+                } else {
+                    LeafErr(json!({"k": "tournament_size", "size": "other", "pop": "other", "debug": format!("{e:?}")}))
+                }
             }),
             Self::Lexicase(l) => l.select(pop, rng).map_err(|e| match e {
                 ec_core::operator::selector::lexicase::LexicaseError::EmptyPopulation(_) => LeafErr(json!({"k": "empty_population"})),
@@ -121,7 +122,7 @@ fn leaf_sel(spec: &Value) -> LeafSel {
         Some("best") => LeafSel::Best,
         Some("worst") => LeafSel::Worst,
         Some("random") => LeafSel::Random,
-        Some("tournament") => LeafSel::Tournament(Tournament::new(NonZeroUsize::new(u(&spec["k"]) as usize).expect("k"))),
+        Some("tournament") => LeafSel::Tournament(Tournament::new(NonZeroUsize::new(u(&spec["k"]) as usize).expect("k")), u(&spec["k"]) as usize),
         Some("lexicase") => LeafSel::Lexicase(Lexicase::new(u(&spec["c"]) as usize)),
         Some(o) => {
             eprintln!("unknown leaf selector {o}");
